@@ -943,6 +943,19 @@ func main() {
 			run(m, 1000000+ti)
 			reverse(m, Comp{On: true, Prob: 0.5, Rng: crng}, "types")
 		}
+		// the same types with RDATA that reads as a (compressed) domain name: still opaque octets
+		m := genMsg(trng, 1, 3, 2, 2, false)
+		shapes := [][]byte{{0xC0, 0x0C}, append([]byte{4}, []byte("peer\xC0\x0C")...), append([]byte{4}, []byte("host\x05local\x00")...), {0}, {1, 'x', 0xC0, 0x0C, 0}}
+		k := 0
+		for _, sec := range [][]RRR{m.An, m.Ns, m.Ar} {
+			for i := range sec {
+				sec[i].Type, sec[i].Class = ty, 1
+				sec[i].RData = append([]byte(nil), shapes[(k+ti)%len(shapes)]...)
+				k++
+			}
+		}
+		run(m, 1500000+ti)
+		reverse(m, Comp{On: true, Prob: 0.5, Rng: crng}, "types-name-shaped-rdata")
 	}
 	for _, counts := range [][4]int{{0, 1, 0, 0}, {0, 0, 1, 0}, {0, 0, 0, 1}, {1, 1, 1, 1}, {0, 8, 0, 0}, {1, 6, 6, 6}, {0, 40, 40, 40}, {2, 0, 0, 30}} {
 		m := &RMsg{ID: 0x4d4d, Flags: 0x8000}
